@@ -68,6 +68,12 @@ type renderer struct {
 	// afterBareDescription: the previous thing written was bare description
 	// text, where '#' and blank lines would be content.
 	afterBareDescription bool
+	// afterBody: the previous thing written was a schema or enum body. What
+	// follows it up to the next directive is still read by the schema library,
+	// whose comment rules differ ('##' is an error there, and '#' directly
+	// before a line end swallows the next line - known finding, excluded here
+	// by construction and counted).
+	afterBody bool
 	lineNo               int
 	kcount               map[string]int
 	files                map[string]string // finished included files (shared)
@@ -112,6 +118,30 @@ func (r *renderer) newline() {
 
 var commentTexts = []string{"comment", "GET /x", "( not a paren", ") nor this", "// no annotation", "/* nor this */", "\"quote", "TYPE @zz", "a ## b", "# nested # hashes", "URL"}
 
+// lineComment draws one spelling of a line comment: '#' alone, '##' alone,
+// with and without a blank before the text, with a doubled hash.
+func (r *renderer) lineComment() string {
+	text := commentTexts[r.pick("ctext", len(commentTexts))]
+	shape := r.pick("cshape", 8)
+	if r.afterBody && shape <= 2 {
+		r.knobs["excluded:hash-comment-shape-after-body"]++
+		shape = 5
+	}
+	switch shape {
+	case 0:
+		return "#"
+	case 1:
+		return "##"
+	case 2:
+		return "## " + text
+	case 3:
+		return "#" + strings.TrimLeft(text, "#")
+	case 4:
+		return "#\t" + text
+	}
+	return "# " + text
+}
+
 func (r *renderer) indent(depth int) string {
 	if r.st.OnlyKnob != "" {
 		r.kcount["reindent-line"]++
@@ -138,7 +168,7 @@ func (r *renderer) trivia(depth int) {
 		return
 	}
 	if r.chance("comment-line", r.st.Comments) {
-		r.write(r.indent(depth) + "# " + commentTexts[r.pick("ctext", len(commentTexts))])
+		r.write(r.indent(depth) + r.lineComment())
 		r.newline()
 	}
 	if r.chance("block-comment", r.st.Blocks) {
@@ -320,6 +350,7 @@ func enumLines(vv []EnumVal) []string {
 func (r *renderer) include(d *Dir, depth int) {
 	r.trivia(depth)
 	r.afterBareDescription = false
+	r.afterBody = false
 	ind := r.indent(depth)
 	r.write(ind)
 	begin := r.sb.Len()
@@ -360,6 +391,7 @@ func (r *renderer) dir(d *Dir, depth int) {
 	}
 	r.trivia(depth)
 	r.afterBareDescription = false
+	r.afterBody = false
 	ind := r.indent(depth)
 	r.write(ind)
 	begin := r.sb.Len()
@@ -409,6 +441,7 @@ func (r *renderer) dir(d *Dir, depth int) {
 				bodyEnd = r.sb.Len()
 			}
 			r.newline()
+			r.afterBody = true
 		}
 	}
 	if explicit {
@@ -455,6 +488,7 @@ func (r *renderer) dir(d *Dir, depth int) {
 	}
 	if explicit {
 		r.afterBareDescription = false
+		r.afterBody = false
 		r.write(r.indent(depth) + ")")
 		r.newline()
 	}
